@@ -450,8 +450,15 @@ pub fn exercise(fmt: &str, bytes: &[u8]) {
 pub fn write_fields(args: &Args) -> i32 {
     let mut out = std::io::BufWriter::new(std::fs::File::create(args.req("out")).unwrap());
     for (si, s) in seeds(args.get("fixtures").is_some()).iter().enumerate() {
-        for (fi, f) in fields(s).iter().enumerate() {
-            writeln!(out, "{}", json!({"seed": si + 1, "name": s.name, "f": fi + 1, "kind": f.kind, "ncls": nclasses(f.kind), "part": f.part})).unwrap();
+        let fl = fields(s);
+        // fixtures: an evenly spread sample of at most 500 fields, single faults only
+        let fixture = s.name.starts_with("fixture:");
+        let step = if fixture && fl.len() > 500 { fl.len() / 500 + 1 } else { 1 };
+        for (fi, f) in fl.iter().enumerate() {
+            if fi % step != 0 && f.kind != "part" {
+                continue;
+            }
+            writeln!(out, "{}", json!({"seed": si + 1, "name": s.name, "f": fi + 1, "kind": f.kind, "ncls": nclasses(f.kind), "part": f.part, "pairs": !fixture})).unwrap();
         }
     }
     0
